@@ -100,6 +100,29 @@ func tokenIsOpType(token *token, opType *operationType) bool {
 	return token.TokenType == operationToken && token.Operation.OperationType == opType
 }
 
+// insideIndexBrackets tells whether the innermost '[' still open at index indexes or slices what stands before it
+// (`.[`, `.a[`, `$x[`, `)[`), as opposed to a '[' that collects results into a new array
+func insideIndexBrackets(tokens []*token, index int) bool {
+	depth := 0
+	for i := index - 1; i >= 0; i-- {
+		switch tokens[i].TokenType {
+		case closeCollect:
+			depth++
+		case traverseArrayCollect:
+			if depth == 0 {
+				return true
+			}
+			depth--
+		case openCollect:
+			if depth == 0 {
+				return i > 0 && tokens[i-1].CheckForPostTraverse
+			}
+			depth--
+		}
+	}
+	return false
+}
+
 func handleToken(tokens []*token, index int, postProcessedTokens []*token) (tokensAccum []*token, skipNextToken bool) {
 	skipNextToken = false
 	currentToken := tokens[index]
@@ -147,7 +170,8 @@ func handleToken(tokens []*token, index int, postProcessedTokens []*token) (toke
 	if tokenIsOpType(currentToken, createMapOpType) {
 		log.Debugf("tokenIsOpType: createMapOpType")
 		// check the next token is ']', means we are slice, but dont have a second number
-		if index != len(tokens)-1 && tokens[index+1].TokenType == closeCollect {
+		// (only inside brackets that index or slice: in `["a":]` the ':' simply lacks its value)
+		if index != len(tokens)-1 && tokens[index+1].TokenType == closeCollect && insideIndexBrackets(tokens, index) {
 			log.Debugf("next token is : closeCollect")
 			// need to put the number 0 before this token, as that is implied
 			lengthOp := &Operation{OperationType: lengthOpType}
